@@ -244,6 +244,16 @@ def main(chk):
     recs = lc.collect(chk, rng, tr.ALL, 3 if q else 30, quick=False)
     for r in recs:
         check_run(chk, r)
+    for r in lc.tab_collect(chk, rng, 2 if q else 20):
+        res, case, m = r["res"], r["case"], r["model"]
+        n = len([e for e in res["log"] if e[0] == "step"])
+        resets = len([e for e in res["log"] if e[0] == "reset"])
+        if res["raised"]:
+            chk.fail(f"C11:train_{r['name']}:step-after-done", "a tabular routine stepped a finished episode without reset", {"case": case, "raised": res["raised"]})
+        elif n > case["total_timesteps"]:
+            chk.fail(f"C11:train_{r['name']}:budget", "a tabular routine executed more environment steps than its budget", {"case": case, "steps": n})
+        elif n != m["step"] or resets != m["resets"]:
+            chk.disagree("tabular-loop-skeleton", {"case": case, "impl": {"steps": n, "resets": resets}, "model": {"steps": m["step"], "resets": m["resets"]}})
     rollout_cases(chk, rng, 6 if q else 40)
     selector_cases(chk, rng, 12 if q else 200)
     scheduler_cases(chk, rng, 6 if q else 100)
@@ -254,6 +264,7 @@ def main(chk):
              "> budget, episode limits 1-3, warm-up 0 / 4 / 6 / > budget, update frequencies 1-2): executed steps vs budget, stop at the episode "
              "limit, returned counter, iterations in which the online parameters changed vs the documented gate, and all of these vs the extracted "
              "loop skeleton; generate_rollout on terminated and truncated episodes; round-robin and discounted-UCB selectors against an "
-             "independent float64 decision rule; train_uts / train_active_mt with a contract-obeying stub routine",
+             "independent float64 decision rule; train_uts / train_active_mt with a contract-obeying stub routine; the five tabular routines on a "
+             "scripted discrete environment (steps vs budget, no step after episode end, steps and resets vs the skeleton)",
         assumptions=["parameter updates are observed as changes of the online critic's parameters between consecutive env.step calls",
                      "the discounted-UCB decision is compared only when the arg-max margin exceeds 1e-6", "SMT is exercised by the repository's own test only"])
